@@ -4,14 +4,14 @@ CONSTANTS
   ProofLens = {1, 2, 3}
   MaxHeight = 40
   MaxEpoch = 4
-  MaxFaults = 3
-  MaxEnv = 3
+  MaxFaults = 1
+  MaxEnv = 2
   MaxLag = 2
-  Steps = 45
-  StartEligible = FALSE
-  MaxOther = 1
-  MaxRestarts = 6
-  FaultAfter = 0
-  RaceBias = FALSE
+  Steps = 60
+  StartEligible = TRUE
+  MaxOther = 2
+  MaxRestarts = 4
+  FaultAfter = 25
+  RaceBias = TRUE
   MaxStale = 1
 INVARIANTS Emit
